@@ -34,7 +34,9 @@ class NLRI(object):
     @staticmethod
     def construct_prefix_v4(masklen, prefix_str):
         ip_hex = struct.pack('!I', netaddr.IPNetwork(prefix_str).value)
-        if 16 < masklen <= 24:
+        if masklen == 0:
+            ip_hex = b''
+        elif 16 < masklen <= 24:
             ip_hex = ip_hex[0:3]
         elif 8 < masklen <= 16:
             ip_hex = ip_hex[0:2]
